@@ -1,6 +1,7 @@
 import TsVerif.C17.Lemmas
 import TsVerif.C17.Lossy
--- import TsVerif.C17.Merge
+import TsVerif.C17.MergeLemmas
+import TsVerif.C17.Whole
 /-!
 # C17 — Highlight events are well nested and reproduce the source text exactly
 
@@ -18,9 +19,9 @@ Clause map (models: `TsVerif/C17/Model.lean`, `Merge.lean`; judges: `Judge.lean`
 |---|---|---|
 | HTML, tags removed + entities decoded = normalised text | `render_roundtrip_gen` (any decoder, ANY event stream), `render_roundtrip_fixed` (full statement, for the iterator of `fixes/C17-lossy-truncated.diff`), `render_roundtrip_partial` (unchanged iterator, chunks without tail loss); OPEN `render_roundtrip` is FALSE on the unchanged tree: `render_roundtrip_witness_truncated`, `render_roundtrip_witness_final_invalid` | proved / witness |
 | "invalid UTF-8 replaced" | `lossyFixed_eq_spec` (∀ bytes), `lossy_eq_spec_partial` (no tail loss), witnesses `lossy_drops_truncated_tail`, `lossy_drops_final_replacement` | proved / witness |
-| normalisation of the WHOLE source | `normalize_whole` (well-formed stream, chunk ends on character boundaries ⇒ decoded chunks = decoded source) | proved |
+| normalisation of the WHOLE source | `normalize_whole` (well-formed stream whose chunks do not end inside a character ⇒ decoded chunks = decoded source), `render_roundtrip_whole_fixed` | proved |
 | renderer does not panic on a well-formed stream | `render_total_of_wellFormed` | proved |
-| Source spans contiguous/increasing/covering, Start/End nested and closed | `merge_wellformed_partial` (model of the layer merge: `sort_key`, `highlight_end_stack`, `emit_event`, `next_event`) | proved for the model, judged on every real stream |
+| Source spans contiguous/increasing/covering, Start/End nested and closed | `merge_wellformed_partial` (model of the merge of ONE layer: `highlight_end_stack`, `emit_event`, `next_event`; tied by correspondence); several layers (`sort_key`, `sort_layers`, `insert_layer`) OPEN | proved for one layer, judged on every real stream |
 | injected spans inside the content, local reference like definition | judged on every real stream (`judgeInjected`, `judgeLocals`); not modelled | judge only |
 
 Boundary conventions: the renderer adds the final newline whenever the last HTML *byte* is not a
@@ -155,5 +156,63 @@ theorem render_total_of_wellFormed (dec : Bytes → Bytes) (cfg : RCfg) (evs : L
   rw [if_pos (key evs 0 0 hwf)]
 
 example : wellFormed 5 [Ev.start 3, .source 0 2, .start 4, .source 2 5, .stop, .stop] = true := by decide
+
+/-- For a well-formed stream none of whose chunks ends inside a multi-byte sequence, decoding chunk by
+chunk is decoding the whole source: the normalised text is `lossySpec src` with CRs dropped. -/
+theorem normalize_whole (evs : List Ev) (src : Bytes) (hwf : wellFormed src.length evs = true)
+    (hb : ∀ s e, Ev.source s e ∈ evs → endsTruncated (sliceT src s e) = false) :
+    textOf lossySpec evs src = (lossySpec src).filter (· ≠ 13) := by
+  unfold textOf
+  rw [decoded_whole src evs 0 0 hwf hb, List.drop_zero]
+
+/-- The property's HTML clause about the WHOLE source, for the repaired code: tags removed and
+entities decoded, the HTML is the lossily decoded source without CRs, plus the final newline. -/
+theorem render_roundtrip_whole_fixed (cfg : RCfg) (hattr : ∀ h, 62 ∉ cfg.attr h) (evs : List Ev) (src : Bytes)
+    (hwf : wellFormed src.length evs = true)
+    (hb : ∀ s e, Ev.source s e ∈ evs → endsTruncated (sliceT src s e) = false) :
+    let t := (lossySpec src).filter (· ≠ 13)
+    let x := htmlText (renderT lossyFixed cfg evs src).html
+    x = t ++ [10] ∨ (x = t ∧ t.getLast? = some 10) := by
+  have h := render_roundtrip_fixed cfg hattr evs src
+  unfold judgeHtml at h
+  rw [normalize_whole evs src hwf hb] at h
+  simpa using h
+
+/-- non-vacuity: chunk boundaries between characters (é | €), CR LF inside a highlight -/
+example : wellFormed 7 [Ev.source 0 2, .start 1, .source 2 7, .stop] = true ∧
+    (∀ s e, Ev.source s e ∈ [Ev.source 0 2, .start 1, .source 2 7, .stop] →
+      endsTruncated (sliceT [0xC3, 0xA9, 0xE2, 0x82, 0xAC, 13, 10] s e) = false) := by
+  refine ⟨by decide, ?_⟩
+  intro s e hm
+  simp only [List.mem_cons, List.not_mem_nil, or_false, reduceCtorEq, false_or, Ev.source.injEq] at hm
+  rcases hm with ⟨rfl, rfl⟩ | ⟨rfl, rfl⟩ <;> decide
+
+/-- The hypothesis cannot be dropped: a boundary inside `é` gives two replacement characters. -/
+example : decoded lossySpec [Ev.source 0 1, .source 1 2] [0xC3, 0xA9] ≠ lossySpec [0xC3, 0xA9] := by decide
+
+/-! ## Well-formed event streams (model of the merge of one layer) -/
+
+/-- For EVERY capture list whose offsets lie inside the source (no ordering or nesting assumption is
+needed), the single-layer merge yields a well-formed stream: `Source` spans contiguous, strictly
+increasing, covering `[0,n)` exactly once; `Start`/`End` balanced, never negative, all closed.
+`_partial`: one layer only — OPEN for several layers (`sort_key` / `sort_layers` / `insert_layer` /
+`last_highlight_range` are not modelled; real multi-layer streams are judged instead). -/
+theorem merge_wellformed_partial (n : Nat) (caps : List Cap) (h : capsIn n caps = true) :
+    judgeEvents n (mergeLayer n caps) = true := by
+  have hin : ∀ c ∈ caps, c.s ≤ n ∧ c.e ≤ n := by
+    intro c hc
+    have := List.all_eq_true.mp h c hc
+    simpa using this
+  exact mergeGo_wf n _ 0 [] caps (by simp) ⟨Nat.zero_le _, fun _ h => by simp at h, hin⟩
+
+/-- non-vacuity: nested, adjacent, zero-width and unrecognised captures -/
+example : capsIn 7 [⟨0, 5, some 1⟩, ⟨0, 2, some 2⟩, ⟨2, 2, some 4⟩, ⟨2, 3, none⟩, ⟨3, 5, some 3⟩] = true ∧
+    mergeLayer 7 [⟨0, 5, some 1⟩, ⟨0, 2, some 2⟩, ⟨2, 2, some 4⟩, ⟨2, 3, none⟩, ⟨3, 5, some 3⟩] =
+      [.start 1, .start 2, .source 0 2, .stop, .start 4, .stop, .source 2 3, .start 3, .source 3 5, .stop, .stop,
+       .source 5 7] := by decide
+
+/-- The hypothesis cannot be dropped: a capture that ends beyond the source yields a `Source`
+event past the end. -/
+example : judgeEvents 3 (mergeLayer 3 [⟨1, 9, some 0⟩]) = false := by decide
 
 end TsVerif.C17
